@@ -11,6 +11,9 @@ from triage_seed import scratch, _run, PROPS
 
 def main():
     seeds = sorted(glob.glob('/verif/seeded/C*-*'))
+    only = [a for a in sys.argv[1:] if not a.startswith('-')]      # seed_index.py C17 C06-5 ...: recompute those only
+    if only:
+        seeds = [s for s in seeds if any(os.path.basename(s) == o or os.path.basename(s).startswith(o + '-') for o in only)]
     base_root = scratch()
     index = {}
     with ProcessPoolExecutor(max_workers=16) as ex:
@@ -36,6 +39,10 @@ def main():
                 print(sid, viol or 'MISSED', ('errors only: ' + str(err)) if err else '', flush=True)
             finally:
                 shutil.rmtree(root, ignore_errors=True)
+    if only:
+        full = json.load(open('/verif/seeded/index.json'))
+        full.update(index)
+        index = full
     json.dump(index, open('/verif/seeded/index.json', 'w'), indent=1, sort_keys=True)
 
 
